@@ -13,9 +13,11 @@ strings (int, float, UUID, strptime, the JSON handler, a user transform) are opa
 split "accepts -> value tied to the string by an uninterpreted function / rejects -> ValueError", plus one
 canonical literal per conversion on which the model is exact (so that counter-models replay on the real code).
 
-Parser.  The query string is '&'.join(f1..fn) for n in 1..3 symbolic fields without '&'; `str.split` is
-modelled (see TRUSTED), `decode` is the uninterpreted C10 function.  The real loop body then runs on the
-symbolic fields and the resulting dict is compared, as a mapping, with a reference fold written from the
+Parser.  The query string is '&'.join(f1..fn) for n in 1..3 fields, each name | name '=' value, a value being
+','.join of 1..3 elements; names / values / elements are arbitrary symbolic strings free of the separators
+above them.  `str.split` / `str.partition` / `in` on exactly these joined strings are answered from the
+construction (see TRUSTED), `decode` is the uninterpreted C10 function.  The real loop body then runs on the
+symbolic pieces and the resulting dict is compared, as a mapping, with a reference fold written from the
 statement.
 
 bounded(): a labelled bounded stand-in (never counted as proved) -- exhaustive short query strings against an
@@ -263,11 +265,6 @@ def m_float(I, x=0.0):
     raise PyRaise(ExcVal(ValueError, ('could not convert string to float',)))
 
 
-def num(x):
-    """A bound (min_value / max_value) as the number the subject sees."""
-    return x
-
-
 def f_same(a, b):
     """Same float (NaN is the same as NaN here: 'the value the reference conversion gives')."""
     if sym(a) or sym(b):
@@ -278,6 +275,12 @@ def f_same(a, b):
     if not isinstance(a, float) or not isinstance(b, float):
         return False
     return a == b or (a != a and b != b)
+
+
+def f_isnan(a):
+    if sym(a):
+        return mk_bool(SFloat.lift(a).nan)
+    return isinstance(a, float) and a != a
 
 
 def f_le(a, b):
@@ -506,7 +509,9 @@ def check_escape_and_absent(v, w, out):
     BadRequest, Missing, Invalid = classes(v)
     if w.empty:
         v.cover('empty-list')
-    v.check('escape-only-400-class', out.exc is None or out.exc.isa(BadRequest))
+    # the only exceptions that leave a getter are 400-class errors (HTTPMissingParam / HTTPInvalidParam); the parser-produced
+    # EMPTY list is stated as its own clause so that a recorded finding about it cannot hide any other escape
+    v.check('empty-list-escape-only-400-class' if w.empty else 'escape-only-400-class', out.exc is None or out.exc.isa(BadRequest))
     v.check('other-parameters-untouched', w.params.get('other') == 'unrelated' and len(w.params) == (2 if w.present else 1))
     if not w.present:
         if w.required:
@@ -644,8 +649,10 @@ def _get_param_as_float(v):
         v.cover('rejected')
         return
     val = float_value(w.last)
-    below = False if mn is None else f_lt(val, mn)
-    above = False if mx is None else f_lt(mx, val)
+    # the documentation: "the value must be in the interval min_value <= value <= max_value to avoid triggering an error"
+    # (so NaN, which is in no interval, is rejected as soon as a bound is given)
+    below = False if mn is None else Not(f_le(mn, val))
+    above = False if mx is None else Not(f_le(val, mx))
     if below:
         v.check('below-min-raises-invalid-param', invalid_param(v, out))
         v.check('failure-leaves-store-untouched', store_untouched(w))
@@ -656,9 +663,9 @@ def _get_param_as_float(v):
         v.check('failure-leaves-store-untouched', store_untouched(w))
         v.cover('above-max')
         return
-    # the documentation: "the value must be in the interval min_value <= value <= max_value to avoid triggering an error"
     if out.exc is None:
-        v.check('returned-value-within-min-max', And(True if mn is None else f_le(mn, out.value), True if mx is None else f_le(out.value, mx)))
+        within = And(True if mn is None else f_le(mn, out.value), True if mx is None else f_le(out.value, mx))
+        v.check('returned-value-within-min-max', within)
     v.check('returns-the-float-of-the-last-occurrence', out.exc is None and f_same(out.value, val))
     v.check('store-holds-the-value-on-success', store_holds(w, lambda x: f_same(x, val)))
     v.cover('converted')
@@ -968,14 +975,6 @@ def _decode_stub(I, s, unquote_plus=True):
     if unquote_plus is not True:
         raise Unreached('decode(unquote_plus=False) inside the query parser')
     return decode_ref(s)
-
-
-@stubclass
-class Joined:
-    """sep.join(pieces) for separator-free pieces, as the subject sees it: a str with split / partition / `in` / len."""
-
-    def __init__(self, text):
-        self.text = text  # the SStr (or str) itself, for operations the construction does not answer
 
 
 @stubclass
@@ -1590,7 +1589,8 @@ for qs in strings(glen):
                         key = (g, type(e).__name__)
                         if key not in seen:
                             seen.add(key)
-                            failures.append({'obligation': 'falcon.request:Request.%s#escape-only-400-class' % g, 'input': repr((qs, keep, csv, name)), 'got': repr(e)})
+                            clause = 'empty-list-escape-only-400-class' if req.params[name] == [] else 'escape-only-400-class'
+                            failures.append({'obligation': 'falcon.request:Request.%s#%s' % (g, clause), 'input': repr((qs, keep, csv, name)), 'got': repr(e)})
 report('C08.bounded.getters-on-parsed-parameters', 'every getter on every name of every query string of length <= %d, all four option settings (first witness per getter and exception type)' % glen, cases, failures)
 
 # 3. to_query_str round trip ------------------------------------------------------------------------
@@ -1708,6 +1708,8 @@ TRUSTED = [
     'conversion models in contracts/C08_query.py: m_int_of_str, m_float (class SFloat), m_uuid, m_strptime, _codec / _codec_utf8 (utf-8 encode/decode as uninterpreted total functions)',
     'opaque dependencies are substituted by rebinding the module-level name in the overlay module while the subject runs (class `patched`): falcon.request._DEFAULT_JSON_HANDLER, '
     'falcon.request.parse_query_string, falcon.asgi.request.parse_query_string',
+    'parser harnesses use short solver limits (2 s per obligation, 0.4 s per branch query: on the unchanged tree every query is decided in milliseconds; an undecided one is '
+    'reported as unknown, never as proved) and stop exploring a variant after its first refuted obligation (so that modified trees in the kill matrix fail fast)',
     'pyvc/interp.py setitem: a store under a symbolic key into a concrete dict creates a new entry once the key has been compared unequal to every existing key on the path',
 ]
 KILLS = [
@@ -1739,11 +1741,11 @@ KILLS = [
      "                msg = 'The value must be an integer.'\n                raise errors.HTTPInvalidParam(msg, name)\n\n            if min_value is not None and val <= min_value:\n",
      'Request.get_param_as_int#returns-the-int-of-the-last-occurrence'),
     # max not enforced (float)
-    ('falcon/request.py', "                msg = 'The value must be a float.'\n                raise errors.HTTPInvalidParam(msg, name)\n\n            if min_value is not None and val < min_value:\n"
-     "                msg = 'The value must be at least ' + str(min_value)\n                raise errors.HTTPInvalidParam(msg, name)\n\n            if max_value is not None and max_value < val:\n",
-     "                msg = 'The value must be a float.'\n                raise errors.HTTPInvalidParam(msg, name)\n\n            if min_value is not None and val < min_value:\n"
-     "                msg = 'The value must be at least ' + str(min_value)\n                raise errors.HTTPInvalidParam(msg, name)\n\n            if max_value is not None and max_value < val and False:\n",
+    ('falcon/request.py', "            if max_value is not None and not val <= max_value:\n", "            if max_value is not None and not val <= max_value and False:\n",
      'Request.get_param_as_float#above-max-raises-invalid-param'),
+    # NaN slips through the bounds again (the repaired defect: 'val < min_value' is false for NaN)
+    ('falcon/request.py', "            if min_value is not None and not val >= min_value:\n", "            if min_value is not None and val < min_value:\n",
+     'Request.get_param_as_float#below-min-raises-invalid-param'),
     # store written although the value is rejected (bool)
     ('falcon/request.py', "                msg = 'The value of the parameter must be \"true\" or \"false\".'\n",
      "                if store is not None:\n                    store[name] = val_str\n                msg = 'The value of the parameter must be \"true\" or \"false\".'\n",
